@@ -646,6 +646,23 @@ func c08Run(w *run.Worker) {
 			}
 		}
 	}
+	// valid scripts whose grok patterns refer to definitions of enclosing blocks while the block itself
+	// holds definitions of its own: never rejected
+	{
+		S := rt.Str
+		ap := func(n, pat string) *rt.Node { return rt.Call("add_pattern", S(n), S(pat)) }
+		gk := func(pat string) *rt.Node { return rt.Call("grok", Id("_"), S(pat)) }
+		for i, prog := range [][]*rt.Node{
+			{ap("outer_num", "\\d+"), rt.If(Id("c"), rt.Block(ap("inner_word", "[a-z]+"), gk("%{inner_word:w} %{outer_num:n}")))},
+			{ap("outer_num", "\\d+"), rt.ForIn("v", Id("l"), rt.Block(ap("pair", "%{outer_num:a}-%{outer_num:b}"), gk("%{pair}"), rt.If(Id("v"), rt.Block(ap("deep", "x"), gk("%{deep}%{outer_num:n}%{pair}")))))},
+			{ap("a1", "a"), rt.If(Id("c"), rt.Block(gk("%{a1}")), Id("d"), rt.Block(ap("b1", "b"), gk("%{a1}%{b1}")), rt.Block(ap("c1", "%{a1}c"), gk("%{c1}%{INT:i}")))},
+			{rt.For(nil, Id("c"), nil, rt.Block(ap("w1", "\\w+"), rt.For(nil, Id("d"), nil, rt.Block(ap("w2", "%{w1}!"), gk("%{w2} %{w1} %{WORD:x}"), rt.Break())), rt.Break()))},
+		} {
+			if w.Take() {
+				c08Try(w, full, "valid-pattern-scoping", prog, nil, fmt.Sprint(i))
+			}
+		}
+	}
 	c08Recheck(w, rules, ctxs)
 	// ---- function tables: each builtin removed in turn / call entry without check entry
 	for _, r := range rules {
